@@ -1230,6 +1230,7 @@ int QSexact_basis_dualstatus(
 	mpq_ILLfct_compute_piz (p_mpq->lp); 
 	mpq_ILLfct_compute_dz (p_mpq->lp);
 	mpq_ILLfct_compute_dobj(p_mpq->lp); 
+	fi.pstatus = -1;							/* only the dual side is tested here */
 	mpq_ILLfct_check_dfeasible (p_mpq->lp, &fi, mpq_zeroLpNum);
 	mpq_ILLfct_set_status_values (p_mpq->lp, fi.pstatus, fi.dstatus, PHASEII, PHASEII);
 
